@@ -14,6 +14,7 @@ package vm
 //     visit j act on that loop.
 
 import (
+	"math"
 	"reflect"
 
 	"github.com/mattn/anko/ast"
@@ -415,6 +416,64 @@ func ZZ_C08_forin_map() {
 			zz.Assert(ok && r == 77, "C08.for-in-map/return-leaves-the-function/"+id)
 		} else {
 			zz.Assert(ok && r == 88, "C08.for-in-map/loop-falls-through/"+id)
+		}
+	}
+}
+
+// ZZ_C08_forin_corner_entries: "every map entry once" also for the entries no
+// lookup can find again (NaN keys: each is its own key) and when the body
+// removes entries that were not visited yet (those are not visited, the others
+// exactly once); a loop variable holds the element's value as it was when the
+// iteration began, whatever the body then stores into the container.
+func ZZ_C08_forin_corner_entries() {
+	zz.PermuteMaps(true)
+	v0, v1, w := zz.Int64(), zz.Int64(), zz.Int64()
+	e := env.NewEnv()
+	var got []zzVisit
+	e.Define("rec", func(k, v interface{}) { got = append(got, zzVisit{k, v}) })
+	e.Define("wnew", w)
+	nan := math.NaN()
+	switch c := zz.Choose(5); c {
+	case 0, 1:
+		m := map[interface{}]interface{}{nan: v0, "a": v1}
+		if c == 1 {
+			m = map[interface{}]interface{}{nan: v0, math.NaN(): v1}
+		}
+		e.Define("m", m)
+		_, err := Execute(e, &Options{Debug: false}, "for k, v in m { rec(k, v) }")
+		zz.Assert(err == nil && len(got) == 2, "C08.for-in-map/every-entry-once/nan-keys")
+		if len(got) == 2 {
+			a, okA := got[0].v.(int64)
+			b, okB := got[1].v.(int64)
+			zz.Assert(okA && okB && zz.Or(zz.And(a == v0, b == v1), zz.And(a == v1, b == v0)), "C08.for-in-map/value-belongs-to-key/nan-keys")
+		}
+	case 2:
+		// the first visit removes every other entry: exactly one visit
+		m := map[interface{}]interface{}{"a": v0, "b": v1, "c": w}
+		e.Define("m", m)
+		form := []string{"for k in m { rec(k, 0); delete(m, \"a\"); delete(m, \"b\"); delete(m, \"c\") }", "for k, v in m { rec(k, v); delete(m, \"a\"); delete(m, \"b\"); delete(m, \"c\") }"}[zz.Choose(2)]
+		_, err := Execute(e, &Options{Debug: false}, form)
+		zz.Assert(err == nil && len(got) == 1, "C08.for-in-map/removed-entries-are-not-visited")
+	case 3:
+		a := []int64{v0, v1}
+		e.Define("a", a)
+		_, err := Execute(e, &Options{Debug: false}, "for x in a { a[0] = wnew; a[1] = wnew; rec(0, x) }")
+		zz.Assert(err == nil && len(got) == 2, "C08.for-in-slice/loop-variable-holds-the-value/visits")
+		if len(got) == 2 {
+			x0, ok0 := got[0].v.(int64)
+			x1, ok1 := got[1].v.(int64)
+			// (the second element is read when its iteration begins: it was overwritten by then, as in Go)
+			zz.Assert(ok0 && ok1 && x0 == v0 && x1 == w, "C08.for-in-slice/loop-variable-holds-the-value")
+		}
+	case 4:
+		s := []interface{}{[]interface{}{v0}, []interface{}{v1}}
+		e.Define("a", s)
+		_, err := Execute(e, &Options{Debug: false}, "for x in a { a[0] = [wnew]; rec(0, x[0]) }")
+		zz.Assert(err == nil && len(got) == 2, "C08.for-in-slice/loop-variable-holds-the-value/visits")
+		if len(got) == 2 {
+			x0, ok0 := got[0].v.(int64)
+			x1, ok1 := got[1].v.(int64)
+			zz.Assert(ok0 && ok1 && x0 == v0 && x1 == v1, "C08.for-in-slice/loop-variable-holds-the-value")
 		}
 	}
 }
